@@ -10,7 +10,8 @@
 //	     certificate -> allow); cross-checked against the engine's ValidateCertificate, the
 //	     pre-signing gate called directly, Authority.Renew / Rekey of a certificate that
 //	     carries the names, and (DNS/IP-only names) GetTLSCertificate of an authority whose
-//	     configured dnsNames are these names (any difference is reported as "inconsistent:…")
+//	     configured dnsNames spell these names (IP literals also in the bracketed host form);
+//	     any difference is reported as "inconsistent:…"
 //	vfy  crypto/x509 Certificate.Verify (the independent standard verifier) on the certificate
 //	     the CA returned with the chain it returned and the configured root, or, when the CA
 //	     refused, on a leaf with the same names signed directly with the issuing CA's key
@@ -53,6 +54,54 @@ type Case struct {
 	Levels []gen.Level
 	KeyID  string // "" normal | "noaki" top intermediate without authority key id | "wrongaki" with a different one
 	Names  gen.Names
+	// TLS (optional): the same DNS names and IPs as Names spelled as the CA's `dnsNames`
+	// configuration, for the GetTLSCertificate cross-check
+	TLS []string `json:",omitempty"`
+}
+
+// spellTLS writes DNS/IP-only names as config dnsNames; IP literals are bracketed now and then
+// ("[::1]", "[fd00::1]", "[10.0.0.1]"), which GetTLSCertificate must turn back into IPs.
+// nil when the names cannot be a dnsNames list.
+func spellTLS(r *c.Rng, n *gen.Names) []string {
+	ips, _, ok := n.Parsed()
+	if !ok || len(n.Emails)+len(n.URIs) > 0 || len(n.DNS)+len(ips) == 0 {
+		return nil
+	}
+	out := append([]string{}, n.DNS...)
+	for _, ip := range ips {
+		if l := len(ip); l != 4 && l != 16 {
+			return nil
+		}
+		s := ip.String()
+		if r.Chance(1, 2) {
+			s = "[" + s + "]"
+		}
+		out = append(out, s)
+	}
+	// every DNS name must stay a DNS name under the CA's own classification
+	d, i, e, u := x509util.SplitSANs(n.DNS)
+	if len(d) != len(n.DNS) || len(i)+len(e)+len(u) > 0 {
+		return nil
+	}
+	return out
+}
+
+func sameNames(a, b *x509.Certificate) bool {
+	if len(a.DNSNames) != len(b.DNSNames) || len(a.IPAddresses) != len(b.IPAddresses) ||
+		len(a.EmailAddresses) != len(b.EmailAddresses) || len(a.URIs) != len(b.URIs) {
+		return false
+	}
+	for i := range a.DNSNames {
+		if a.DNSNames[i] != b.DNSNames[i] {
+			return false
+		}
+	}
+	for i := range a.IPAddresses {
+		if !a.IPAddresses[i].Equal(b.IPAddresses[i]) {
+			return false
+		}
+	}
+	return true
 }
 
 var (
@@ -281,38 +330,41 @@ func (k *Case) run(b *built) (out string, ok bool) {
 		}
 	}
 
-	// the CA's own HTTPS certificate (GetTLSCertificate) for these names, when they can be written
-	// as config dnsNames (DNS names and IPs only): a second authority on the same chain
-	if len(k.Names.Emails)+len(k.Names.URIs) == 0 && len(k.Names.DNS)+len(ips) > 0 {
-		sans := append([]string{}, k.Names.DNS...)
-		for _, ip := range ips {
-			sans = append(sans, ip.String())
-		}
-		d, i, e, u := x509util.SplitSANs(sans)
-		if len(d) == len(k.Names.DNS) && len(i) == len(ips) && len(e)+len(u) == 0 {
-			a2, err := authority.NewEmbedded(authority.WithConfig(&config.Config{DNSNames: sans}),
-				authority.WithX509RootCerts(b.root), authority.WithX509SignerChain(b.ints, b.issKy))
-			if err == nil {
-				tc, err := a2.GetTLSCertificate()
-				switch {
-				case err != nil:
-					stats["tls:refused"]++
-				case eng != "allow":
+	// the CA's own HTTPS certificate: a second authority on the same chain whose configured
+	// dnsNames are k.TLS, a spelling of these names as an operator may write them (host names,
+	// IPv4 / IPv6 literals, IP literals in the bracketed host form "[::1]"). GetTLSCertificate
+	// must put exactly these names into the certificate, must refuse when the engine refuses
+	// them, and what it issues must verify like the directly signed leaf.
+	if len(k.TLS) > 0 {
+		a2, err := authority.NewEmbedded(authority.WithConfig(&config.Config{DNSNames: k.TLS}),
+			authority.WithX509RootCerts(b.root), authority.WithX509SignerChain(b.ints, b.issKy))
+		if err == nil {
+			tc, err := a2.GetTLSCertificate()
+			if err != nil {
+				stats["tls:refused"]++
+			} else {
+				stats["tls:issued"]++
+				var cs []*x509.Certificate
+				for _, der := range tc.Certificate {
+					if crt, err := x509.ParseCertificate(der); err == nil {
+						cs = append(cs, crt)
+					}
+				}
+				if len(cs) != 1+len(b.ints) {
+					return "inconsistent:tls-chain", true
+				}
+				// the names that actually ended up in the certificate
+				if !sameNames(cs[0], leaf) {
+					return "inconsistent:tls-names", true
+				}
+				if eng != "allow" {
 					return "inconsistent:tls=issued eng=" + eng, true
-				default:
-					stats["tls:issued"]++
-					var cs []*x509.Certificate
-					for _, der := range tc.Certificate {
-						if crt, err := x509.ParseCertificate(der); err == nil {
-							cs = append(cs, crt)
-						}
-					}
-					if len(cs) != 1+len(b.ints) {
-						return "inconsistent:tls-chain", true
-					}
-					if sv := verifyAt(cs[0], cs[1:], b.root, time.Now()); sv != vfy {
-						return "inconsistent:tls-vfy=" + sv + " direct-vfy=" + vfy, true
-					}
+				}
+				if g := gen.Class(gen.Verdict(a2.VerifConstraintsEngine().ValidateCertificate(cs[0]))); g != "allow" {
+					return "inconsistent:tls=issued engine-on-issued=" + g, true
+				}
+				if sv := verifyAt(cs[0], cs[1:], b.root, time.Now()); sv != vfy {
+					return "inconsistent:tls-vfy=" + sv + " direct-vfy=" + vfy, true
 				}
 			}
 		}
@@ -387,6 +439,11 @@ func corner() []*Case {
 		{Levels: []gen.Level{{PURI: ex("example.com")}, {}}, Names: gen.Names{URIs: ex("https://.example.com/p")}},
 		{Levels: []gen.Level{{PDNS: ex("example.com")}, {}}, Names: gen.Names{DNS: ex(".www.example.com")}},
 		{Levels: []gen.Level{{PEm: ex("example.com")}, {}}, Names: gen.Names{Emails: ex("a@.example.com")}},
+		// the CA's own server certificate: dnsNames spelled with bracketed IP literals
+		{Levels: []gen.Level{{PIP: []gen.Net{gen.NetsOK[0]}}, {}}, Names: gen.Names{DNS: ex("localhost"), IPs: ex("0a000001", "00000000000000000000000000000001")}, TLS: ex("localhost", "10.0.0.1", "[::1]")},
+		{Levels: []gen.Level{{PIP: []gen.Net{gen.NetsOK[0]}}, {}}, Names: gen.Names{IPs: ex("fd000000000000000000000000000001")}, TLS: ex("[fd00::1]")},
+		{Levels: []gen.Level{{XIP: []gen.Net{gen.NetsOK[6]}}, {}}, Names: gen.Names{DNS: ex("ca.example.com"), IPs: ex("fd000000000000000000000000000001")}, TLS: ex("ca.example.com", "[fd00::1]")},
+		{Levels: []gen.Level{{PIP: []gen.Net{gen.NetsOK[0], gen.NetsOK[6]}}, {}}, Names: gen.Names{DNS: ex("ca.example.com"), IPs: ex("0a010203", "fd000000000000000000000000000001")}, TLS: ex("ca.example.com", "[10.1.2.3]", "[fd00::1]")},
 		// three intermediates, exclusion in the middle
 		{Levels: []gen.Level{{PDNS: ex("example.com")}, {XDNS: ex("bad.example.com")}, {}, {PIP: []gen.Net{gen.NetsOK[0]}}}, Names: gen.Names{DNS: ex("x.bad.example.com")}},
 		{Levels: []gen.Level{{PDNS: ex("example.com")}, {XDNS: ex("bad.example.com")}, {}, {PIP: []gen.Net{gen.NetsOK[0]}}}, Names: gen.Names{DNS: ex("good.example.com"), IPs: ex("0a010203")}},
@@ -486,6 +543,7 @@ func main() {
 		}
 		for j := 0; j < *per; j++ {
 			kk := &Case{Levels: k.Levels, KeyID: k.KeyID, Names: gen.GenNames(rr.Fork(), true, k.Levels)}
+			kk.TLS = spellTLS(rr.Fork(), &kk.Names)
 			emit(kk, b)
 		}
 	}
